@@ -507,6 +507,8 @@ def contains_sym(x, _depth=0):
         return False
     if isinstance(x, (list, tuple, set, frozenset)):
         return any(contains_sym(v, _depth + 1) for v in x)
+    if type(x).__module__ == "numpy" and type(x).__name__ == "ndarray":
+        return x.dtype == object and any(contains_sym(v, _depth + 1) for v in x.ravel().tolist())
     if isinstance(x, dict):
         return any(contains_sym(k, _depth + 1) or contains_sym(v, _depth + 1) for k, v in x.items())
     q = getattr(x, "_pyvc_symbolic", None)
